@@ -8,6 +8,12 @@ import PonyVerif.Gen.DbSessionGen
     `_enter`, `__enter__`, `__exit__`, `_commit_or_rollback`, `_wrap_function.new_func` (nested shortcut + retry loop),
     `_wrap_coroutine_or_generator_function` (`wrapped_interact`, option check), `_enter_session/_exit_session`,
     `PonyPlugin.apply`.
+  Regenerated from the source on every run (Gen/DbSessionGen.lean, harness/gen_dbsession.py) and USED here: the chain
+    assigning `can_commit` (`allowedDecision`), the chain assigning `do_retry` (`doRetry`), `range(retry+1)` (`loopFuel`),
+    `rollback()` on the retry path, `commit()` after the body, the arguments of the `finally: __exit__(…)` call, the counter
+    steps of `_enter`/`__exit__`, the guard and arguments of `_commit_or_rollback` in `__exit__`, its commit/rollback branches
+    and `local.db_session = None`, the counter constants of the generator wrapper, the argument of Flask's
+    `session.__exit__`, Bottle's `is_allowed_exception` expression.
   What is abstracted:
     * the database is `committed : List Write`; the session caches (`local.db2cache`) are `pending : List Write`;
     * an exception is an opaque identity `Exc`; `allowed_exceptions` / `retry_exceptions` (class lists *or* callables) are
